@@ -244,6 +244,9 @@ class Universe:
             node = ir.Node("", "Op", ins, graph=self.G(c["g"]), name=f"n{k}", **kw)
             self._add_node(node)
             self._adopt_fresh_outputs(node)
+        elif op == "ReplaceAllUsesSeq":
+            self._ret(ir.convenience.replace_all_uses_with([self.V(x) for x in c["vs"]], [self.V(x) for x in c["ws"]],
+                                                           replace_graph_outputs=bool(c["flag"])))
         elif op == "ReplaceAllUses":
             self._ret(self.V(c["v"]).replace_all_uses_with(self.V(c["w"]), replace_graph_outputs=bool(c["flag"])))
         else:
